@@ -1,0 +1,29 @@
+//go:build verif
+
+package codegen
+
+// Contracts checked by /verif/goavc (comment-only file, built only with -tags verif).
+
+// Writing a section and post-processing a Go file touch the file system (assumed: they are not the subject here).
+//@ func (*SectionTemplate).Write
+//@   trusted
+//@   ensures fsWrites >= old(fsWrites)
+//@   modifies fsWrites
+//@ func finalizeGoSource
+//@   trusted
+//@   ensures fsWrites >= old(fsWrites)
+//@   modifies fsWrites, fsExists
+
+// "The example command never modifies a file that already exists": a SkipExist file whose path exists
+// is left alone — no directory is created, nothing is opened or written.
+//@ func (*File).Render
+//@   property C09
+//@   requires f != nil
+//@   callspec FinalizeFunc
+//@       ensures fsWrites >= old(fsWrites)
+//@       modifies fsWrites, fsExists
+//@   let path = join2(absOf(dir), f.Path)
+//@   ensures* skip.existing: absOk(dir) && f.SkipExist && old(select(fsExists, path)) ==> result0 == "" && result1 == nil && fsWrites == old(fsWrites) && fsExists == old(fsExists)
+//@   ensures* path: result1 == nil && !(f.SkipExist && old(select(fsExists, path))) ==> result0 == path
+//@   loop 1 invariant monotone: fsWrites >= old(fsWrites)
+//@   ensures monotone: fsWrites >= old(fsWrites)
